@@ -295,7 +295,7 @@ pub fn run(env: &Env, run: &Run) -> (Stats, Coverage) {
                     let v = check_label(env, Prof::Ucm, &s, &mut st);
                     count(v, &mut st);
                 }
-                // the code point next to each of its bit-16..20 aliases (plane-blind lookups)
+                // the code point next to each of its 16 other-plane aliases (plane-blind lookups)
                 for a in alias_chars(char::from_u32(cp).unwrap()) {
                     let a = a as u32;
                     if !env.ud16.assigned(a) {
@@ -313,6 +313,53 @@ pub fn run(env: &Env, run: &Run) -> (Stats, Coverage) {
         .collect();
     for s in shards {
         st.merge(s);
+    }
+    // (b') the same table sweep on ONE thread, ascending then descending (per-thread lazily
+    // built tables, slot counters, eviction)
+    st.merge(cpsweep_sequential(|c, st| {
+        let cp = c as u32;
+        if !env.ud16.assigned(cp) {
+            return;
+        }
+        for lab in [vec![cp], vec![r, cp], vec![l, cp, l]] {
+            let s = from_cps(&lab);
+            check_label(env, Prof::Ucm, &s, st);
+        }
+    }));
+    // (b'') neighbour pairs: every assigned non-L code point b next to every other assigned code
+    // point a of its own 256-block, as [a, b] and as [R, a, b, R] (lookup state carried from one
+    // character of a label to the next)
+    {
+        let blocks: Vec<u32> = (0..0x1100u32).collect();
+        let shards: Vec<Stats> = blocks
+            .par_iter()
+            .map(|blk| {
+                let mut st = Stats::default();
+                let lo = blk << 8;
+                let members: Vec<u32> = (lo..lo + 256).filter(|c| char::from_u32(*c).is_some() && env.ud16.assigned(*c)).collect();
+                let non_l: Vec<u32> = members.iter().copied().filter(|c| env.ud16.bidi(*c) != Some("L")).collect();
+                if lite() && blk % 7 != 0 {
+                    return st;
+                }
+                for &b in &non_l {
+                    st.states += 1;
+                    for &a in &members {
+                        if a == b {
+                            continue;
+                        }
+                        for lab in [vec![a, b], vec![r, a, b, r]] {
+                            st.transitions += 1;
+                            let s = from_cps(&lab);
+                            check_label(env, Prof::Ucm, &s, &mut st);
+                        }
+                    }
+                }
+                st
+            })
+            .collect();
+        for s in shards {
+            st.merge(s);
+        }
     }
     // (c) pumped runs over the class representatives: a^k b, b a^k, a^k b a for k up to 1025
     {
@@ -339,7 +386,7 @@ pub fn run(env: &Env, run: &Run) -> (Stats, Coverage) {
     st.sample(json!({"classes": ["L", "R"], "expected": "Err(Invalid): R in an LTR label"}));
     st.sample(json!({"classes": ["EN", "L"], "expected": "Ok unchanged: no R/AL/AN, rule does not apply"}));
     let cov = Coverage {
-        rule: format!("(a) every sequence of length <= {} over the 23 bidirectional classes (one representative code point per class, rotated by VERIF_SEED) through directionality_rule; (b) every code point assigned in the profile crate's UnicodeData in the contexts c, Rc, RcR, R AN c R, LcL and next to each of its assigned bit-16..20 aliases; (d) the complete W-method test suite of the specification automaton (see 'wmethod'); (c) pumped runs a^k b, b a^k, a^k b a over the 23 representatives for k in 6..9, 15..17, 30..33, 63..65, 127..129, 255..257, 1023, 1025; oracle = the six RFC 5893 conditions as set predicates over the class sequence (not a scan), classes from an independent reader of UnicodeData; Ok results must equal the input; non-trivial = labels that contain R/AL/AN (the rule is actually judged)", n),
+        rule: format!("(a) every sequence of length <= {} over the 23 bidirectional classes (one representative code point per class, rotated by VERIF_SEED) through directionality_rule; (b) every code point assigned in the profile crate's UnicodeData in the contexts c, Rc, RcR, R AN c R, LcL and next to each of its assigned 16 other-plane aliases; (d) the complete W-method test suite of the specification automaton (see 'wmethod'); (b'') every assigned non-L code point next to every other assigned code point of its own 256-block, in two contexts; (b') the table sweep repeated on one thread in ascending and descending order; (c) pumped runs a^k b, b a^k, a^k b a over the 23 representatives for k in 6..9, 15..17, 30..33, 63..65, 127..129, 255..257, 1023, 1025; oracle = the six RFC 5893 conditions as set predicates over the class sequence (not a scan), classes from an independent reader of UnicodeData; Ok results must equal the input; non-trivial = labels that contain R/AL/AN (the rule is actually judged)", n),
         alphabet: json!(reps.iter().map(|(c, ch)| format!("{}=U+{:04X}", c, *ch as u32)).collect::<Vec<_>>()),
         bound_completed: format!("all {} class sequences of length <= {}; table: every assigned code point x 5 contexts", tree_size(23, n), n),
         exhaustive: false,
